@@ -161,6 +161,12 @@ package object
 //@     invariant len(commit.Tree) == 0 || len(commit.Tree) >= 20
 //@     invariant forall i int :: 0 <= i && i < len(commit.Parents) ==> len(commit.Parents[i]) >= 20
 
+// What a match of signRegexp ("<name without '<'> <<email>> <seconds> <+|-><4 digits>") says about the pieces readSign cuts
+// the line into (assumed; validated against the real regexp by TestVFReplay_regexps in /verif/replay/object.go.txt)
+//@ pred afterName(s) := splitTail(s, " <")
+//@ pred afterEmail(s) := splitTail(afterName(s), "> ")
+//@ regexp signRegexp: match(s) ==> contains(s, " <") && contains(afterName(s), "> ") && contains(afterEmail(s), " ") && len(splitTail(afterEmail(s), " ")) == 5
+
 //@ func NewSign
 //@   returns s
 //@   ensures [fields] {C02,C12} s != nil && fresh(s) && s.Name == name && s.Email == email
